@@ -56,7 +56,7 @@ SelectAgrees(docs, file) ==
 
 \* ---------------------------------------------------------------- (ii) the rewrite fold
 \* rule: [or |-> Seq(Seq([field, pat])), pending, payee, account]
-\* record: [payee, category]  (category "~" when the statement has none)
+\* record: [payee, category, fields]  (category "~" when the statement has none; fields: the named fields of a Camt053 detail)
 CONSTANT MatchTable    \* [pattern -> [text -> "~" (no match) or [payee, code] ("~" = group absent)]]
 NoMatch == [m |-> FALSE, payee |-> NoneS, code |-> NoneS]
 Match(pat, text) == IF text \in DOMAIN MatchTable[pat] THEN MatchTable[pat][text] ELSE NoMatch
@@ -64,10 +64,17 @@ Match(pat, text) == IF text \in DOMAIN MatchTable[pat] THEN MatchTable[pat][text
 Frag0 == [payee |-> NoneS, account |-> NoneS, code |-> NoneS, cleared |-> FALSE]
 
 \* one field matcher against the record, seeing the payee as rewritten so far
+\* the text a matcher field is applied to: `payee` sees the payee as rewritten so far, `category` the record's
+\* category, every other field (the Camt053 party / information fields) the record's own field of that name
+FieldText(field, frag, rec) ==
+  IF field = "payee" THEN (IF frag.payee = NoneS THEN rec.payee ELSE frag.payee)
+  ELSE IF field = "category" THEN rec.category
+  ELSE IF field \in DOMAIN rec.fields THEN rec.fields[field] ELSE NoneS
 FieldMatch(f, frag, rec) ==
-  IF f.field = "payee" THEN Match(f.pat, IF frag.payee = NoneS THEN rec.payee ELSE frag.payee)
-  ELSE IF rec.category = NoneS THEN NoMatch
-  ELSE LET r == Match(f.pat, rec.category) IN [m |-> r.m, payee |-> NoneS, code |-> NoneS]   \* only the payee field captures
+  LET text == FieldText(f.field, frag, rec) IN
+  IF text = NoneS THEN NoMatch
+  ELSE IF f.field = "category" THEN LET r == Match(f.pat, text) IN [m |-> r.m, payee |-> NoneS, code |-> NoneS]   \* a category never captures
+  ELSE Match(f.pat, text)
 
 \* an element matches only if all its fields do; captures accumulate
 RECURSIVE AndMatch(_, _, _, _)
